@@ -9,13 +9,21 @@ from props import treelib as T
 ID = "C06"
 LEAN_MODULES = ["Ccp.Props.C06"]
 RULE = ("histories of 1..6 editing operations (list insert/append/pop, list-level insert_before/after by regex, object-level "
-        "insert_before/after, delete, append_to_family with explicit/auto/no indent, replace_text, re_sub, commit) over 11 seed "
+        "insert_before/after, delete, append_to_family with explicit/auto/no indent, replace_text, re_sub, commit) over 10 seed "
         "configs and random configs of 2..10 lines with duplicate texts, prefix texts (Eth1/Eth10) and regex metacharacters; "
-        "auto_commit on and off (+ explicit commits); syntax ios (indent width 1) and nxos (width 2); ignore_blank_lines off "
-        "(its interaction with commits is C07's). quick: every single operation of a 60-op alphabet on every seed config, plus "
-        "random histories. Object-level operations take their object from the committed tree: while an uncommitted change is "
-        "pending (auto_commit off) they are skipped on both sides, because line numbers of held objects are documented to be "
-        "stale until commit. non-trivial = a history with at least one successful mutation; distinct by request.")
+        "auto_commit on and off (+ explicit commits); syntax ios (indent width 1) and nxos (width 2); ignore_blank_lines off and on "
+        "(30 % of the random histories, a sample of the single operations, 40 % of the directed stream; configs with blank lines, "
+        "blank payloads included). quick: every single operation of a 60-op alphabet on every seed config, random histories, and a "
+        "directed stream (auto_commit on, 1..3 ops) aimed at the parent-frame theorems: child-level append_to_family to childless "
+        "and to parent targets (as given / auto_indent / explicit indent), object-level inserts at the indent of the line they are "
+        "placed next to, list-level inserts by a regex that matches the lines of one indent, list insert(k) of a shallow line, "
+        "replace_text that keeps indentation and kind, delete. Banner/macro configs (3 seed configs + 2 with a macro / two banners) get "
+        "every single operation except delete/append_to_family (their families are delimited, not indentation based; C07 compares "
+        "those trees): text effect, 'lines above the edit keep their parents' and, for insertions at a closed position, 'every line "
+        "below keeps its parent or is captured' are judged there. Object-level operations take their object from the committed "
+        "tree: while an uncommitted change is pending (auto_commit off) delete/append_to_family are skipped on both sides, because "
+        "line numbers of held objects are documented to be stale until commit. non-trivial = a history with at least one successful "
+        "mutation; distinct by request. The buckets `frame:*` count the situations of the parent-frame theorems that occurred.")
 LEVEL_TEXT = ("Theorems (Lean 4, Ccp.Props.C06, for all states and payloads of the edit state machine; text effect of one step when the "
               "following commit does not filter, i.e. auto_commit off, or on without ignore_blank_lines): insert(k)/append/pop(k) are exactly "
               "Python's list operations with the index normalisation stated (pop out of range = IndexError, state unchanged); list-level "
@@ -29,22 +37,56 @@ LEVEL_TEXT = ("Theorems (Lean 4, Ccp.Props.C06, for all states and payloads of t
               "by 1 + |all_children|); replace_text / re_sub change position p only (List.set), an unchanged re_sub is a no-op; a successful "
               "append_to_family inserts exactly one line at the computed index, for a child-level append to a target with children that index "
               "is family_endpoint + 1 (directly after the last descendant); every refused operation leaves the whole state unchanged; options "
-              "never change and with auto_commit off only commit replaces the tree. Parent links (configs without banner/macro starts, "
-              "auto_commit on, blank lines kept, committed state): a child-level append_to_family to a target with children puts the line at "
-              "family_endpoint+1, the new line's parent is the target and every existing line keeps its parent (index-shifted), provided the "
-              "payload is not a comment and every config-line child of the target is indented at least as deep as the payload (automatic for "
-              "indent width 1); delete leaves every surviving line's parent at the new position of its old parent; both with the one "
-              "exclusion of a comment directly below the insertion point / below a deleted line (its attachment follows C02's "
-              "comment-under-a-deeper-line rule; counterexamples are given). With auto_commit on and ignore_blank_lines the texts are "
-              "one bootstrap of the auto_commit-off result: a sublist of it keeping every non-blank line. The model is tied to the code by "
-              "differential runs of whole histories (texts after every step, tree after every commit).")
+              "never change and with auto_commit off only commit replaces the tree. "
+              "Parent links (PlainCommitted: committed state, C07's invariant, auto_commit on, no banner/macro start in the config; with OR "
+              "without ignore_blank_lines — such a state holds no blank line and its tree is the option-off parse of its texts; the payload "
+              "starts no banner/macro and is not blank under ignore_blank_lines, a blank one being dropped again by the commit, "
+              "blank_payload_ignored): "
+              "(1) the EXACT frame condition of a one-line insertion at position c (InsertFrame, proved from C02's specParent): lines above c "
+              "keep their parents; an old line j >= c gets the new line as parent iff it is captured — the new line is a config line shallower "
+              "than j, j is not a comment left unattached under a deeper line, and no config line in [c, j) is shallower than j "
+              "(captured_iff) — and otherwise keeps its parent index-shifted; instantiated for ConfigList.insert(k), obj.insert_before, "
+              "obj.insert_after and every successful append_to_family whatever its index branch (F10b and childless same-indent included: "
+              "appendToFamily_parents says exactly which lines change parent). "
+              "(2) child-level append_to_family: to a target with children, for every indent width and every payload (comments included) the "
+              "line goes to family_endpoint+1 and no old line changes parent; a non-comment payload becomes a child of the target — the former "
+              "hypothesis that no config-line child is shallower than the payload is shown to follow from the success of the call for every "
+              "width (appendToFamily_children_anywidth; with width 2 the excluded shapes are refused by the code); to a CHILDLESS target that is "
+              "a config line the line goes to i+1, becomes the target's only child (comment payloads too) and no old line changes parent. "
+              "(3) delete leaves every surviving line's parent at the new position of its old parent, with or without ignore_blank_lines. "
+              "(4) obj.insert_before above a config line that is not indented deeper than the payload (e.g. same indent) changes no parent at "
+              "all and the new line gets the parent of that line; obj.insert_after of a config line at the indent of the (config) line above "
+              "takes over exactly that line's children and becomes its sibling; list-level insert_before/after: removing the copies gives back "
+              "the old list and an old line whose new parent is an old line has it at the image of its old parent (MultiFrame), and when the "
+              "regex matches only config lines not indented deeper than the payload no old line is adopted by a copy "
+              "(listInsertBefore_same_indent). (5) replace_text / re_sub: lines above the position keep their parents whatever the new text is; "
+              "when the new text has the indentation and kind of the old one no parent changes. (6) For EVERY config — banner and macro families "
+              "included, no restriction on config or payload, blank lines kept — no operation changes the parent of a line above the edited "
+              "position (lines_above_keep_parents, from prefix locality of passes 1-3: link_prefix). (7) One line inserted into a config WITH "
+              "banner/macro families (blank lines kept) at a position that is not inside a family body (ClosedAt: every banner/macro start "
+              "above it finds its terminator above it; payload starts no family): every old line at or below the insertion point keeps its "
+              "parent, index-shifted, or is adopted by the new line — only if captured in the sense of captured_iff (InsertFrameW, by a "
+              "shifted simulation of the banner and macro walks); instantiated for insert(k), obj.insert_before/after and every successful "
+              "append_to_family. Exclusions, each with a decided "
+              "counterexample: a comment directly below the insertion point / below a deleted line (C02's comment-under-a-deeper-line rule). "
+              "With auto_commit on and ignore_blank_lines the texts are one bootstrap of the auto_commit-off result: a sublist of it keeping "
+              "every non-blank line. The model is tied to the code by differential runs of whole histories (texts after every step, tree after "
+              "every commit), and the parent-frame theorems are additionally replayed by the Python oracle on the implementation's own trees "
+              "(an independent re-implementation of captured_iff).")
 LEVEL_NOTE = ("Trusted: Lean kernel, standard axioms, harness. Regexes are oracle data (rows / substituted texts computed with re by the "
               "harness); str.replace is modelled for a non-empty 'before'. Partial: the same-indent append_to_family placement is proved as the "
-              "code does it (self + |children|, known finding F10b), not as the property wants it; for a childless target the index is "
-              "characterised through the code's own helpers (last sibling / last_family_linenum / last_parent_linenums[0]). The parent-preservation "
-              "theorems are proved from a specification-level lemma (specParent under insertion of one line / removal of a set of lines) and "
-              "do not cover configs with banner or macro starts, ignore_blank_lines, nxos payloads when some config-line child of the target "
-              "is indented less than the payload, childless targets, or the same-indent placement (F10b, where parents do change).")
+              "code does it (self + |children|, known finding F10b), not as the property wants it; for a childless target and a same-indent "
+              "payload the index is characterised through the code's own helpers (last sibling / last_family_linenum). Known finding F10d: "
+              "append_to_family on a comment or blank target (which heads no family) can make following lines children of the new line — "
+              "the hypothesis 'the target is a configuration line' of the childless theorem is necessary; appendToFamily_parents says "
+              "which lines are captured. Configs with banner or macro starts: covered are the lines ABOVE any edit (lines_above_keep_parents) "
+              "and, for one-line insertions at a position outside every family body with a payload that starts no family, the lines below "
+              "(InsertFrameW; in the disjunctive form 'keeps its parent or is captured', because inside such configs the tree is not the "
+              "indentation tree). Not covered there: insertions inside a banner/macro body (a payload holding the delimiter ends the family "
+              "early — decided counterexample), payloads that start a family, delete / replace below the edit, ignore_blank_lines together "
+              "with families; for those only C07's 'tree after commit = fresh parse' applies. Not covered: states with uncommitted changes "
+              "(auto_commit off), where no tree exists until the commit. The list-level frame is stated over positions of the new list "
+              "(rank = old position), not as a closed formula old index -> new index.")
 ASSUMPTIONS = ["object handles are used only on a committed state", "auto_indent_width is the syntax default (1, or 2 for nxos)"]
 TRUSTED = ["regex oracle rows", "str.replace modelled for non-empty 'before'"]
 EXHAUSTIVE = {"quick": False, "thorough": False}
@@ -69,22 +111,92 @@ def seeds():
     return [c for c in E.SEED_CONFIGS if not any(T.BANNER_RE.search(l) or l[:11] == "macro name " for l in c)]
 
 
+def plain_config(rng, blanks):
+    """a config without banner / macro starts; with `blanks`, some blank lines (dropped by ignore_blank_lines)"""
+    n = rng.randint(2, 10)
+    out = []
+    for _ in range(n):
+        if blanks and rng.random() < 0.2:
+            out.append(rng.choice(["", " ", "   "]))
+        else:
+            out.append(rng.choice(["", " ", "  ", "   ", "    "]) + rng.choice(["a", "b", "Eth1", "Eth10", "a.b", "a(b", "! c"]))
+    return out
+
+
+def directed_ops(rng, lines, width, ign=False):
+    """one operation aimed at the situations of the parent-frame theorems: child-level append to a childless
+    target, insert next to a line of the same indent, list-level insert above lines of one indent, a replace
+    that keeps indentation and kind"""
+    h = rng.randrange(0, 64)
+    kept = [l for l in lines if not (ign and l.strip() == "")] or ["x"]
+    tgt = kept[h % len(kept)]
+    ind = len(tgt) - len(tgt.lstrip())
+    word = rng.choice(["n", "Eth1", "a", "! k", "a.b"])
+    r = rng.random()
+    if r < 0.30:
+        mode = rng.random()
+        if mode < 0.5:
+            return ["atf", h, " " * (ind + width) + word, -1, False]
+        if mode < 0.8:
+            return ["atf", h, word, -1, True]
+        return ["atf", h, word, ind + width, False]
+    if r < 0.55:
+        return [rng.choice(["oib", "oia"]), h, " " * ind + word]
+    if r < 0.65:
+        return ["ins", rng.choice([0, 1, 2, 3, -1, -2]), " " * rng.choice([0, 1, 2]) + word]
+    if r < 0.80:
+        k = rng.choice([0, 1, 2])
+        rx = "^" + " " * k + r"[^ !]"
+        return [rng.choice(["lib", "lia"]), rx, " " * k + word]
+    if r < 0.90:
+        return ["rep", h, rng.choice(["a", "Eth1", "b", "1"]), rng.choice(["z", "zz", "Po"])]
+    return ["del", h]
+
+
+def banner_seeds():
+    return [c for c in E.SEED_CONFIGS if c not in seeds()] + [
+        ["hostname a", "macro name m", " x", "y", "@", "interface X", " shutdown"],
+        ["a", " b", "banner login ^C", "  deep", "^C", " c", "banner motd #one line#", "d"],
+    ]
+
+
 def cases(rng, tier):
     if tier != "search":
         for lines in seeds():
             for op in single_ops():
                 for syntax in ("ios", "nxos"):
                     yield E.mk_case(syntax, False, True, lines, [op], "single")
+            # the same single operations under ignore_blank_lines (a sample; blank payloads included)
+            for op in single_ops()[::3]:
+                yield E.mk_case("ios", True, True, lines, [op], "single-ign")
+        # configs with banner / macro families: text effect and `lines_above_keep_parents` only (their families
+        # are delimited, not indentation based; delete / append_to_family on them are C07's)
+        for lines in banner_seeds():
+            for op in single_ops():
+                if op[0] in ("del", "atf"):
+                    continue
+                yield E.mk_case("ios", False, True, lines, [op], "single-banner")
     n = {"quick": 1200, "thorough": 60000, "search": 2500}[tier]
     for _ in range(n):
         syntax = rng.choice(["ios", "ios", "nxos", "asa", "iosxr"])
         auto = rng.random() < 0.6
+        ign = rng.random() < 0.3
         if rng.random() < 0.5:
             lines = rng.choice(seeds())
         else:
-            lines = [rng.choice(["", " ", "  ", "   ", "    "]) + rng.choice(["a", "b", "Eth1", "Eth10", "a.b", "a(b", "! c"])
-                     for _ in range(rng.randint(2, 10))]
-        yield E.mk_case(syntax, False, auto, lines, E.rand_ops(rng, rng.choice([1, 2, 3, 4, 6]), auto))
+            lines = plain_config(rng, ign and rng.random() < 0.5)
+        yield E.mk_case(syntax, ign, auto, lines, E.rand_ops(rng, rng.choice([1, 2, 3, 4, 6]), auto))
+    # directed stream: auto-commit on (the parent theorems speak about committed states), 1..3 operations
+    m = {"quick": 900, "thorough": 30000, "search": 1500}[tier]
+    for _ in range(m):
+        syntax = rng.choice(["ios", "ios", "nxos", "asa"])
+        ign = rng.random() < 0.4
+        if rng.random() < 0.4:
+            lines = rng.choice(seeds())
+        else:
+            lines = plain_config(rng, ign and rng.random() < 0.5)
+        ops = [directed_ops(rng, lines, E.width_of(syntax), ign) for _ in range(rng.choice([1, 1, 2, 3]))]
+        yield E.mk_case(syntax, ign, True, lines, ops, "directed")
 
 
 def neighbours(case, rng):
@@ -119,15 +231,158 @@ def py_insert(lst, k, x):
     return l2
 
 
+# ---- the indentation rule seen from the texts only (independent of the model): used to replay the parent-frame
+# ---- theorems of Ccp.Props.C06 on the implementation's own dumps
+def line_info(t, delims):
+    st = t.lstrip()
+    cmt = st != "" and st[0] in delims
+    return (len(t) - len(st), st != "" and not cmt, cmt)     # indent, is_config_line, is_comment
+
+
+def is_plain(lines):
+    return not any(T.BANNER_RE.search(l) or l[:11] == "macro name " for l in lines)
+
+
+def comment_under_deeper(infos, j):
+    return j > 0 and infos[j][2] and infos[j - 1][0] > infos[j][0]
+
+
+def captured(infos, x, c, j):
+    """`captured_iff`: old line j >= c is adopted by the line x inserted at c"""
+    l = infos[j]
+    return (x[1] and x[0] < l[0] and not comment_under_deeper(infos, j)
+            and all(infos[m][0] >= l[0] for m in range(c, j) if infos[m][1]))
+
+
+def frame_insert(prev, par0, cur, par1, c, txt, delims):
+    """InsertFrame: one line `txt` inserted at position c"""
+    if cur != prev[:c] + [txt] + prev[c:]:
+        return None            # the text effect is judged elsewhere
+    infos = [line_info(t, delims) for t in prev]
+    x = line_info(txt, delims)
+    bad = []
+    for j in range(len(prev)):
+        if j < c:
+            if par1[j] != par0[j]:
+                bad.append(j)
+            continue
+        if j == c and infos[j][2]:
+            continue           # a comment directly behind the new line (C02's legacy rule)
+        want = c if captured(infos, x, c, j) else (par0[j] if par0[j] < c else par0[j] + 1)
+        if par1[j + 1] != want:
+            bad.append(j)
+    return f"insert-frame: old lines {bad} do not have the parent the frame theorem gives" if bad else None
+
+
+def frame_multi(prev, par0, cur, par1, rows, after, txt, delims):
+    """MultiFrame: a copy of `txt` before / after every matching line"""
+    origin = []
+    for i, t in enumerate(prev):
+        if rows[i] and not after:
+            origin.append(None)
+        origin.append(i)
+        if rows[i] and after:
+            origin.append(None)
+    want = [txt if o is None else prev[o] for o in origin]
+    if cur != want:
+        return None
+    bad = []
+    for q, o in enumerate(origin):
+        if o is None:
+            continue
+        if line_info(cur[q], delims)[2] and q > 0 and origin[q - 1] is None:
+            continue
+        np_ = par1[q]
+        if origin[np_] is None:
+            # adopted by a copy: only possible when the copy is a config line shallower than the line
+            xi = line_info(txt, delims)
+            if not (xi[1] and xi[0] < line_info(cur[q], delims)[0]):
+                bad.append(q)
+            continue
+        if par0[o] != origin[np_]:
+            bad.append(q)
+    return f"multi-insert-frame: new positions {bad} hold old lines with an unexpected parent" if bad else None
+
+
+def frame_replace(prev, par0, cur, par1, p, delims):
+    bad = [j for j in range(min(p, len(prev), len(cur))) if par1[j] != par0[j]]
+    if not bad and len(cur) == len(prev) and line_info(cur[p], delims) == line_info(prev[p], delims) and par1 != par0:
+        bad = [j for j in range(len(prev)) if par1[j] != par0[j]]
+    return f"replace-frame: lines {bad} changed parent" if bad else None
+
+
+def frame_delete(prev, par0, cur, par1, gone, delims):
+    keep = [j for j in range(len(prev)) if j not in gone]
+    if cur != [prev[j] for j in keep]:
+        return None
+    rank = {j: r for r, j in enumerate(keep)}
+    bad = []
+    for j in keep:
+        if line_info(prev[j], delims)[2] and j > 0 and (j - 1) in gone:
+            continue
+        if par0[j] not in rank or par1[rank[j]] != rank[par0[j]]:
+            bad.append(j)
+    return f"delete-frame: surviving lines {bad} changed parent" if bad else None
+
+
+def is_start(t, ios):
+    return bool(T.BANNER_RE.search(t)) or (ios and t[:11] == "macro name ")
+
+
+def closed_at(lines, c, ios):
+    """`ClosedAt`: every banner / macro start above c finds its terminator above c"""
+    for p in range(min(c, len(lines))):
+        x = lines[p]
+        if T.BANNER_RE.search(x):
+            m = T.BANNER_DELIM_RE.search(x)
+            if m is not None:
+                d = m.group("bchar")
+                if len(x.split(d)) <= 2 and not any(d in lines[q].strip() for q in range(p + 1, c)):
+                    return False
+        if ios and x[:11] == "macro name " and not any(lines[q].rstrip() == "@" for q in range(p + 1, c)):
+            return False
+    return True
+
+
+def frame_insert_families(prev, par0, cur, par1, c, txt, delims):
+    """InsertFrameW: insertion at a closed position of a config with banner / macro families"""
+    if cur != prev[:c] + [txt] + prev[c:]:
+        return None
+    infos = [line_info(t, delims) for t in prev]
+    x = line_info(txt, delims)
+    bad = []
+    for j in range(c, len(prev)):
+        if j == c and infos[j][2]:
+            continue
+        keeps = par1[j + 1] == (par0[j] if par0[j] < c else par0[j] + 1)
+        adopted = par1[j + 1] == c and captured(infos, x, c, j)
+        if not (keeps or adopted):
+            bad.append(j)
+    return f"insert-frame (families): old lines {bad} neither keep their parent nor are captured by the new line" if bad else None
+
+
+def ins_pos(n, k):
+    return max(0, n + k) if k < 0 else min(k, n)
+
+
 def oracle(case, ans):
     steps = E.parse_answer(ans)
     fails = []
     width = E.width_of(case["syntax"])
+    ign = case["ignore_blank"]
+    delims = T.cfg_delims(case["syntax"], case["delims"])
     for idx, op in enumerate(case["ops"]):
         st_prev, _, prev, dump_prev, _ = steps[idx]
         status, _, cur, dump_cur, at = steps[idx + 1]
         k = op[0]
         tag = f"step {idx} {op}"
+        if dump_cur is not None and (dump_cur["linenums"] != list(range(len(cur)))
+                                     or len(dump_cur["parents"]) != len(cur)
+                                     or any(not (0 <= q <= j) for j, q in enumerate(dump_cur["parents"]))):
+            # a committed tree whose line numbers are not 0..n-1 or whose parent links point outside / forwards:
+            # nothing below can be judged on it
+            fails.append(f"{tag}: committed tree is not well-formed (linenums {dump_cur['linenums']}, parents {dump_cur['parents']})")
+            break
         if status == "skip":
             if cur != prev:
                 fails.append(f"{tag}: skipped but the text changed")
@@ -152,6 +407,7 @@ def oracle(case, ans):
                 fails.append(f"{tag}: unexpected {status}")
             continue
         n = len(prev)
+        rows = None
         if k == "ins":
             want = py_insert(prev, op[1], op[2])
         elif k == "app":
@@ -160,8 +416,8 @@ def oracle(case, ans):
             want = list(prev); want.pop(op[1])
         elif k in ("lib", "lia"):
             want = []
-            for t in prev:
-                hit = re.search(op[1], t) is not None
+            rows = [re.search(op[1], t) is not None for t in prev]
+            for t, hit in zip(prev, rows):
                 if hit and k == "lib":
                     want.append(op[2])
                 want.append(t)
@@ -188,14 +444,56 @@ def oracle(case, ans):
             continue
         else:
             want = prev
+        if ign and dump_cur is not None:
+            # the commit that followed dropped the blank lines (no banner / macro bodies in these configs)
+            want = [t for t in want if t.strip() != ""]
         if cur != want:
             fails.append(f"{tag}: texts {cur!r} expected {want!r}")
+            continue
+        # ---- replay of the parent-frame theorems on the implementation's own trees (committed states)
+        if dump_prev is None or dump_cur is None:
+            continue
+        if not ign:
+            # `lines_above_keep_parents`: any config, banner / macro families included
+            npre = 0
+            while npre < min(len(prev), len(cur)) and prev[npre] == cur[npre]:
+                npre += 1
+            bad = [j for j in range(npre) if dump_cur["parents"][j] != dump_prev["parents"][j]]
+            if bad:
+                fails.append(f"{tag}: prefix-frame: lines {bad} above the edited position changed parent")
+                continue
+        par0, par1 = dump_prev["parents"], dump_cur["parents"]
+        if not is_plain(prev) or not is_plain(cur):
+            # `insert_parents_families` / `objInsert_parents_families`: closed position, payload starts no family
+            ios = case["syntax"] == "ios"
+            if k in ("ins", "oib", "oia") and not ign and not is_start(op[2], ios):
+                c = ins_pos(n, op[1]) if k == "ins" else (at if k == "oib" else at + 1)
+                if closed_at(prev, c, ios):
+                    f = frame_insert_families(prev, par0, cur, par1, c, op[2], delims)
+                    if f:
+                        fails.append(f"{tag}: {f}")
+            continue
+        f = None
+        if k in ("ins", "oib", "oia") and not (ign and op[2].strip() == ""):
+            c = ins_pos(n, op[1]) if k == "ins" else (at if k == "oib" else at + 1)
+            f = frame_insert(prev, par0, cur, par1, c, op[2], delims)
+        elif k in ("lib", "lia"):
+            f = frame_multi(prev, par0, cur, par1, rows, k == "lia", op[2], delims)
+        elif k in ("rep", "sub") and len(cur) == len(prev):
+            f = frame_replace(prev, par0, cur, par1, at, delims)
+        elif k == "del":
+            f = frame_delete(prev, par0, cur, par1, gone, delims)
+        if f:
+            fails.append(f"{tag}: {f}")
     return fails[:3]
 
 
 def check_atf(case, op, i, prev, cur, dump_prev, dump_cur, width):
     """exactly one line added, all other lines keep text and order; a child-level append lands inside the
     target's family and no existing line changes parent"""
+    if case["ignore_blank"] and op[2].strip() == "" and dump_cur is not None:
+        # a blank payload under ignore_blank_lines is dropped again by the commit (`blank_payload_ignored`)
+        return None if cur == prev else f"blank payload under ignore_blank_lines: texts {cur!r} from {prev!r}"
     if len(cur) != len(prev) + 1:
         return f"{len(cur) - len(prev)} lines added"
     cands = [j for j in range(len(cur)) if cur[:j] + cur[j + 1:] == prev]
@@ -213,13 +511,17 @@ def check_atf(case, op, i, prev, cur, dump_prev, dump_cur, width):
     new = cur[pos]
     if new.lstrip() != op[2].lstrip():
         return f"inserted text {new!r} is not the payload {op[2]!r}"
+    ind0 = len(prev[i]) - len(prev[i].lstrip())
+    want_txt = (" " * op[3] + op[2].lstrip()) if op[3] > 0 else ((" " * (ind0 + width) + op[2].lstrip()) if op[4] else op[2])
+    if not any(cur[j] == want_txt for j in good):
+        return f"inserted text {new!r}, expected {want_txt!r} (explicit indent / auto_indent = target indent + width / as given)"
     if dump_cur is None or dump_prev is None:
         return None
     ind = lambda t: len(t) - len(t.lstrip())  # noqa: E731
     delims = T.cfg_delims(case["syntax"], case["delims"])
+    if not is_plain(prev) or not is_plain(cur):
+        return None      # banner / macro families are delimited, not indentation based (C07 compares their trees)
     tgt = prev[i].lstrip()
-    if tgt == "" or tgt[0] in delims:
-        return None      # a comment or blank line cannot head a family; only the text effect is judged
     # parents of the old lines, before and after (indices shifted by the insertion)
     shift = lambda j: j if j < pos else j + 1  # noqa: E731
     is_cmt = lambda t: t.lstrip()[:1] != "" and t.lstrip()[0] in T.cfg_delims(case["syntax"], case["delims"])  # noqa: E731
@@ -227,6 +529,14 @@ def check_atf(case, op, i, prev, cur, dump_prev, dump_cur, width):
     # so comments are not counted as "existing lines that changed parent"
     moved = [j for j in range(len(prev)) if not is_cmt(prev[j])
              and shift(dump_prev["parents"][j]) != dump_cur["parents"][shift(j)]]
+    if tgt == "" or tgt[0] in delims:
+        # a comment or blank line heads no family: the new line cannot become its child; the clause "no existing line
+        # changes parent" is judged all the same (known finding F10d)
+        if moved and ind(new) != ind(prev[i]):
+            return f"noncfg-target-reparent: target {prev[i]!r} is a comment/blank line; old lines {moved} changed parent"
+        if moved:
+            return f"same-indent-reparent: old lines {moved} changed parent"
+        return None
     child_level = ind(new) == ind(prev[i]) + width
     if child_level:
         fam = [i] + descendants(dump_prev["parents"], i)
@@ -234,7 +544,10 @@ def check_atf(case, op, i, prev, cur, dump_prev, dump_cur, width):
             return f"child-level append landed at {pos}, outside the family {fam} of line {i}"
         newl = new.lstrip()
         payload_is_config = newl != "" and newl[0] not in delims
-        if payload_is_config and dump_cur["parents"][pos] != i:
+        childless = not any(q == i and j != i for j, q in enumerate(dump_prev["parents"]))
+        # a comment payload is attached by C02's legacy rule: to the target when it lands directly below it (childless
+        # target, `appendToFamily_childless_keeps_parents`), possibly nowhere when it lands below a deeper line
+        if (payload_is_config or childless) and dump_cur["parents"][pos] != i:
             return f"new line's parent is {dump_cur['parents'][pos]}, not the target {i}"
     if moved:
         return ("same-indent-reparent" if not child_level else "child-level-reparent") + f": old lines {moved} changed parent"
@@ -244,6 +557,8 @@ def check_atf(case, op, i, prev, cur, dump_prev, dump_cur, width):
 def known_id(case, failure):
     if "same-indent-reparent" in failure:
         return "F10b"
+    if "noncfg-target-reparent" in failure:
+        return "F10d"
     return None
 
 
@@ -256,7 +571,61 @@ def describe(case):
 
 
 def buckets(case, ans):
-    out = ["syntax:" + case["syntax"], "auto:%d" % case["auto_commit"], "ops:%d" % len(case["ops"])]
+    out = ["syntax:" + case["syntax"], "auto:%d" % case["auto_commit"], "ops:%d" % len(case["ops"]),
+           "ignore_blank:%d" % case["ignore_blank"]]
     for op, part in zip(case["ops"], ans.split("#")[1:]):
         out.append("op:" + op[0] + ":" + part.split("~")[0].split("@")[0])
+    # the situations of the parent-frame theorems (committed plain states, successful operation)
+    try:
+        steps = E.parse_answer(ans)
+    except Exception:  # noqa: BLE001
+        return out
+    delims = T.cfg_delims(case["syntax"], case["delims"])
+    width = E.width_of(case["syntax"])
+    ign = "ign" if case["ignore_blank"] else "noign"
+    for idx, op in enumerate(case["ops"]):
+        _, _, prev, dp, _ = steps[idx]
+        status, _, cur, dc, at = steps[idx + 1]
+        if status != "ok" or dp is None or dc is None:
+            continue
+        k = op[0]
+        if not is_plain(prev) or not is_plain(cur):
+            ios = case["syntax"] == "ios"
+            if k in ("ins", "oib", "oia") and len(cur) == len(prev) + 1:
+                c = ins_pos(len(prev), op[1]) if k == "ins" else (at if k == "oib" else at + 1)
+                out.append("frame:families:%s:%s:%s" % (k, "closed" if closed_at(prev, c, ios) else "inside-body",
+                                                        "start-payload" if is_start(op[2], ios) else "plain-payload"))
+            continue
+        infos = [line_info(t, delims) for t in prev]
+        if k == "atf" and at is not None and len(cur) == len(prev) + 1:
+            kids = [j for j, q in enumerate(dp["parents"]) if q == at and j != at]
+            cands = [j for j in range(len(cur)) if cur[:j] + cur[j + 1:] == prev]
+            lvl = "?"
+            if cands:
+                d = line_info(cur[cands[0]], delims)[0] - infos[at][0]
+                lvl = "child" if d == width else ("same" if d == 0 else "other")
+            kind = "cfg" if infos[at][1] else "noncfg"
+            out.append(f"frame:atf:{'childless' if not kids else 'parent'}:{lvl}:{kind}-target:{ign}")
+        elif k in ("oib", "oia") and at is not None and len(cur) == len(prev) + 1:
+            x = line_info(op[2], delims)
+            rel = "same-indent" if x[0] == infos[at][0] else ("deeper" if x[0] > infos[at][0] else "shallower")
+            c = at if k == "oib" else at + 1
+            cap = sum(1 for j in range(c, len(prev)) if captured(infos, x, c, j))
+            out.append(f"frame:{k}:{rel}:{'cfg' if infos[at][1] else 'noncfg'}-target:{'captures' if cap else 'no-capture'}:{ign}")
+        elif k == "ins" and len(cur) == len(prev) + 1:
+            x = line_info(op[2], delims)
+            c = ins_pos(len(prev), op[1])
+            cap = sum(1 for j in range(c, len(prev)) if captured(infos, x, c, j))
+            out.append(f"frame:ins:{'captures' if cap else 'no-capture'}:{ign}")
+        elif k in ("lib", "lia"):
+            rows = [re.search(op[1], t) is not None for t in prev] if op[1] != "" else []
+            hits = [i for i, b in enumerate(rows) if b]
+            if hits:
+                x = line_info(op[2], delims)
+                same = all(infos[i][1] and infos[i][0] <= x[0] for i in hits)
+                out.append(f"frame:{k}:matches>0:{'all-cfg-not-deeper' if same else 'mixed'}:{ign}")
+        elif k in ("rep", "sub") and at is not None and len(cur) == len(prev) and cur != prev:
+            out.append(f"frame:{k}:{'same-info' if line_info(cur[at], delims) == infos[at] else 'info-changed'}:{ign}")
+        elif k == "del" and len(cur) < len(prev):
+            out.append(f"frame:del:{ign}")
     return out
